@@ -306,3 +306,38 @@ def _codegen_arms(repo):
     lean = ("def c14CodegenArms : List (String × String × String) := [\n  "
             + ",\n  ".join("(" + ", ".join(lean_str(x) for x in r) + ")" for r in rows) + "]")
     return [list(r) for r in rows], lean
+
+
+# ---------------------------------------------------------------------------------------------------
+# codegen.rs: every call that takes a span (push_span, set_line_from_span, add_with_span) with WHAT span it is
+# handed: `node` = `<path>.span()` of an AST node of the arm at hand, `param` = the `span` parameter of a
+# helper, `stack` = the innermost pushed span (`*span` inside `CodeGenerator::add`), anything else verbatim
+def codegen_span_args(repo):
+    rows = []
+    for fn, what, arg in codegen_arms(repo):
+        if what in ("push_span", "set_line_from_span"):
+            sp, names = arg, ""
+        elif what in ("add_with_span", "instructions.add_with_span"):
+            names, _, sp = arg.rpartition("@")
+        else:
+            continue
+        if re.fullmatch(r"[a-z_][\w.]*\.span\(\)", sp):
+            kind = "node"
+        elif sp == "span":
+            kind = "param"
+        elif sp == "*span":
+            kind = "stack"
+        else:
+            kind = "other:" + sp
+        rows.append((fn, what, names, sp, kind))
+    if len(rows) < 40:
+        raise KeyError("span-taking calls in codegen.rs")
+    return rows
+
+
+@item("C14_CODEGEN_SPAN_ARGS")
+def _codegen_span_args(repo):
+    rows = codegen_span_args(repo)
+    lean = ("def c14CodegenSpanArgs : List (String × String × String × String × String) := [\n  "
+            + ",\n  ".join("(" + ", ".join(lean_str(x) for x in r) + ")" for r in rows) + "]")
+    return [list(r) for r in rows], lean
